@@ -110,13 +110,18 @@ class Calibration(TorchFunctionMode):
 
     def __enter__(self):
         super().__enter__()
+        # The same object can be entered again before it is left (nested blocks): each entry removes its own hooks
+        if not hasattr(self, "_handles"):
+            self._handles = []
         self.pre_handle = register_module_forward_pre_hook(self.calibrate_input)
         self.post_handle = register_module_forward_hook(self.calibrate_output)
+        self._handles.append((self.pre_handle, self.post_handle))
 
     def __exit__(self, exc_type, exc_val, exc_tb):
         super().__exit__(exc_type, exc_val, exc_tb)
-        self.pre_handle.remove()
-        self.post_handle.remove()
+        pre_handle, post_handle = self._handles.pop()
+        pre_handle.remove()
+        post_handle.remove()
 
     def calibrate_input(self, module: torch.nn.Module, input):
         if isinstance(module, QModuleMixin) and module.activation_qtype is not None:
